@@ -987,7 +987,23 @@ func c09Judge(e *Env, tab *c09Table, caseKey string, rc c09Race) {
 			return
 		}
 		rerun := []string{"vm.VirtualMachine.resetForNewCode", "vm.VirtualMachine.reloadCode", "vm.VirtualMachine.applyOptions"}
-		if (c09Has(rc.a.frames, "vm.VirtualMachine.Clone") && c09Has(rc.b.frames, rerun...)) || (c09Has(rc.b.frames, "vm.VirtualMachine.Clone") && c09Has(rc.a.frames, rerun...)) {
+		// the compiler may inline Clone into the harness closure that calls it: the race report then
+		// shows the map iteration directly under main.c09RunCloneRerun.func… with no risor frame
+		isClone := func(s c09Stack) bool {
+			if c09Has(s.frames, "vm.VirtualMachine.Clone") {
+				return true
+			}
+			if !strings.HasPrefix(caseKey, "clone-rerun") || inner(s) != "" {
+				return false
+			}
+			for _, f := range s.raw {
+				if strings.HasPrefix(f, "main.c09RunCloneRerun") {
+					return true
+				}
+			}
+			return false
+		}
+		if (isClone(rc.a) && c09Has(rc.b.frames, rerun...)) || (isClone(rc.b) && c09Has(rc.a.frames, rerun...)) {
 			e.R.H("race_location", "(map published through vm.globals/loadedCode/modules during a re-run)")
 			e.R.Spec(caseKey, desc+": object published to a concurrent Clone by a re-run of the VM without cloneMutex", "C09-clone-during-rerun")
 			return
